@@ -288,9 +288,10 @@ func (i *IPC) ProxyAnswers(arg messages.Arg, response *[]byte) error {
 		// an answer for this snowflake may already have been delivered.
 		select {
 		case snowflake.answerChannel <- answer:
+			vhook("a.sent", id, answer)
 		default:
+			vhook("a.dropped", id, answer)
 		}
-		vhook("a.sent", id, answer)
 	}
 
 	return nil
